@@ -11,12 +11,13 @@ import CelmaVerif.Lemmas.RulesLevel
   destination in terms of the argument's own uses.
 
   STAGE / partial: `Spells` covers `-c`, `--name` (exact or any abbreviation that resolves), `-c v`,
-  `--name v`, `--name=v`, `-cv`, flags grouped behind one dash (`-abc`), value-less uses of
-  optional-value arguments (`-v`, `--verbose` for a LevelCounter, when no value follows) and free
-  values behind a multi-value argument.  Not yet in `Spells` (modelled and covered by the
-  differential run only): a flag group closed by a value-taking key (`-abk5`, `-abk 5`) and the `--`
-  separator in front of dash-leading values; the theorems that depend on `Spells` are named
-  `_partial` for that reason.  Floating-point destinations are outside the modelled fragment.
+  `--name v`, `--name=v`, `-cv`, flags grouped behind one dash (`-abc`), also closed by a
+  value-taking key (`-abk v`, `-abkv`), value-less uses of optional-value arguments (`-v`,
+  `--verbose` for a LevelCounter, when no value follows) and free values behind a multi-value
+  argument — every form the property lists.  Not in `Spells` (modelled and covered by the
+  differential run only): the `--` separator in front of dash-leading values, and control
+  characters; the theorems that depend on `Spells` keep the suffix `_partial` for that reason and
+  because the destinations are those of the modelled fragment.  Floating-point destinations are outside the modelled fragment.
 -/
 namespace CelmaVerif.Props.C01
 open CelmaVerif CelmaVerif.ProgArgs CelmaVerif.Keys
